@@ -213,6 +213,8 @@ def print_nodes(nodes, attr_raw=None):
             a = ' name="%s()"' % name
             if fl.get("buffered"):
                 a += ' buffered="True"'
+            if fl.get("cached"):
+                a += ' cached="True"'  # (first render of a fresh template: the cache is empty, the meaning is the uncached one)
             if fl.get("filter") is not None:
                 a += " filter=" + _attr(fl_(fl["filter"]))
             out.append("<%def" + a + ">" + print_nodes(body, attr_raw) + "</%def>")
